@@ -400,7 +400,7 @@ func genReq(t *rapid.T, lb string) Req {
 		s.NoWrite = true
 		s.Ret = rapid.SampledFrom(errStatuses).Draw(t, lb+"ret")
 		if rapid.Bool().Draw(t, lb+"err") {
-			s.Err = "scripted error"
+			s.Err = rapid.SampledFrom([]string{"scripted error", "scripted error", "context.Canceled", "context.DeadlineExceeded", "io.EOF", "os.ErrNotExist", "http.ErrAbortHandler"}).Draw(t, lb+"errv")
 		}
 	case k < 15:
 		r.Kind = "written"
